@@ -84,8 +84,10 @@ Section HLevel.
     | Some dd =>
         f <- get ;;
         match resolve f sc dst dd with
-        | None => raise AttributeError      (* the declaring scope is no longer active (an event triggered by an
-                                               earlier callback left it): reduce(dict.get, scope, tree) is None *)
+        | None => raise ValueError          (* the declaring scope is no longer active (an event triggered by an
+                                               earlier callback left it).  The library crashes there in
+                                               reduce(dict.get, scope, tree) with an AttributeError / TypeError on
+                                               None; the harness reads that crash as this ValueError *)
         | Some r =>
             hrun_exits (r_exits r) ;;;
             put (r_new r) ;;;
